@@ -628,6 +628,94 @@ def extent(prog, ex, chk, S3, name, ge):
                                   facts={'written': wn.show(), 'allocated': an.show()})
 
 
+def _value_rejections(prog, cg, f, encoder_side=False):
+    """(kind, node) for throws of f and the repository functions it calls whose condition tests decoded
+    VALUES rather than the bytes available: 'count' = an integer compared with a literal other than
+    a length test, 'order' = element i compared with element i-1 (or i+1)."""
+    out = []
+    seen = set()
+    work = [f]
+    while work:
+        g = work.pop()
+        if g.key in seen or g.body is None:
+            continue
+        seen.add(g.key)
+        for e in cg.edges(g):
+            for t in e.targets:
+                if t.body is not None and prog.in_repo(t.file) and ('performance_data_format' in (t.file or '') or
+                                                                       '/v2/' in (t.file or '')) and t.cls is None:
+                    work.append(t)
+        for x in walk(g.body):
+            if x.get('kind') != 'IfStmt' or len(children(x)) < 2:
+                continue
+            if not any(y.get('kind') == 'CXXThrowExpr' for y in walk(children(x)[1])):
+                continue
+            cond = children(x)[0]
+            ptrish = any(('*' in (y.get('type') or '') and y.get('kind') in ('DeclRefExpr', 'ImplicitCastExpr'))
+                         for y in walk(cond))
+            for y in walk(cond):
+                if y.get('kind') != 'BinaryOperator' or y.get('opcode') not in ('<', '<=', '>', '>=', '==', '!='):
+                    continue
+                a, b = children(y)
+                subs = [z for z in walk(y) if z.get('kind') in ('CXXOperatorCallExpr', 'ArraySubscriptExpr')]
+                idx = []
+                for z in subs:
+                    c = children(z)
+                    if z.get('kind') == 'CXXOperatorCallExpr' and \
+                            (strip(c[0]).get('referencedDecl') or {}).get('name') == 'operator[]' and len(c) > 2:
+                        idx.append(strip(c[2], explicit=True))
+                if len(idx) >= 2 and any(i.get('kind') == 'BinaryOperator' and i.get('opcode') in ('-', '+') for i in idx) \
+                        and y.get('opcode') in ('<', '<=', '>', '>='):
+                    out.append(('order', y, g))
+                elif not ptrish and (literal_value(strip(b, explicit=True)) is not None) != \
+                        (literal_value(strip(a, explicit=True)) is not None) and (
+                            y.get('opcode') in ('<', '>', '<=', '>=') or (encoder_side and y.get('opcode') in ('==', '!='))):
+                    lit = literal_value(strip(b, explicit=True))
+                    lit = lit if lit is not None else literal_value(strip(a, explicit=True))
+                    other = a if literal_value(strip(b, explicit=True)) is not None else b
+                    ot = (strip(other, explicit=True).get('type') or '')
+                    oo = strip(other, explicit=True)
+                    # a decoded integer held in a local (not the size of a buffer), against a positive
+                    # constant: `count < 2`, `count > 32768`; `n < 0` cannot come from an encoder
+                    is_size = oo.get('kind') == 'CXXMemberCallExpr' and \
+                        strip(children(oo)[0]).get('name') in ('size', 'length')
+                    wide = 'long' in ot or 'int64' in ot or 'size_t' in ot or 'size_type' in ot
+                    if isinstance(lit, int) and not isinstance(lit, bool) and lit > 0 and wide and (
+                            (oo.get('kind') == 'DeclRefExpr' and (oo.get('referencedDecl') or {}).get('kind') == 'VarDecl')
+                            or (encoder_side and is_size)):
+                        out.append(('count', y, g))
+    return out
+
+
+def domain_symmetry(prog, chk, rid, grams):
+    """What a decoder rejects on the VALUES it has decoded (a marker count outside [2, 32768],
+    markers that are not strictly increasing) the encoder of the same codec must refuse to write:
+    otherwise an accepted value is stored in a form that can no longer be decoded.  Per codec and
+    kind of value test ('count', 'order'): the encoder side has a throwing test of the same kind."""
+    from .. import callgraph
+    cg = callgraph.get(prog)
+    n = 0
+    for name, ge, gd in grams:
+        dec = _value_rejections(prog, cg, gd.func)
+        enc = _value_rejections(prog, cg, ge.func, encoder_side=True)
+        for kind in ('count', 'order'):
+            d = [x for x in dec if x[0] == kind]
+            if not d:
+                continue
+            n += 1
+            e = [x for x in enc if x[0] == kind]
+            inst = '%s: the decoder rejects on %d %s test(s) (first at %s), the encoder applies %d' % (
+                name, len(d), kind, locstr(d[0][1]), len(e))
+            if e:
+                chk.ok(rid, inst, locstr(d[0][1]))
+            else:
+                chk.violation(rid, '%s|decoder rejects by %s, encoder does not' % (name, kind), locstr(d[0][1]),
+                              '%s: a value that fails the decoder\'s %s test (%s in %s) is encoded without any test '
+                              'and stored; decoding it throws, so the value is written in a form that cannot be '
+                              'decoded' % (inst, kind, locstr(d[0][1]), d[0][2].qualname))
+    return n
+
+
 def run(tier='quick'):
     prog = program.load()
     chk = Check('C03', tier)
@@ -660,6 +748,9 @@ def run(tier='quick'):
         raise AnalysisBroken('only %d codec pairs found' % len(grams))
     symmetry(prog, chk, S1, grams)
     absence_tests(prog, chk, S4)
+    S9 = chk.rule('S9', 'what a decoder rejects on decoded values (repeat counts against constants, ordering of '
+                        'neighbouring elements) the encoder of the codec refuses to write', floor=2)
+    domain_symmetry(prog, chk, S9, grams)
     S8 = chk.rule('S8', 'a codec that appends trailing bytes accepts on decode every length its encoder produces',
                   floor=3)
     trailing_data_accepted(prog, chk, S8, grams)
